@@ -6,8 +6,10 @@ package main
 import (
 	"context"
 	"fmt"
+	"os"
 	"sort"
 	"strings"
+	"time"
 
 	ipfslog "berty.tech/go-ipfs-log"
 	logiface "berty.tech/go-ipfs-log/iface"
@@ -87,7 +89,21 @@ func (w *World) execSnapOp(ctx context.Context, toks []string) (bool, error) {
 		}
 	case "snapsave":
 		p := atoi(toks[1])
-		res := guarded(func() error { _, err := basestore.SaveSnapshot(ctx, w.stores[p]); return err })
+		// (a save that does not come back - it takes the replicator's lock to read its queue - holds that
+		// lock for good: nothing of the scenario can go on; said, and the process ends)
+		done := make(chan string, 1)
+		go func() {
+			done <- guarded(func() error { _, err := basestore.SaveSnapshot(ctx, w.stores[p]); return err })
+		}()
+		var res string
+		select {
+		case res = <-done:
+		case <-time.After(20 * time.Second):
+			w.printf("snapsaved %d hung\n", p)
+			w.printf("end\n")
+			w.out.Flush()
+			os.Exit(3)
+		}
 		w.lastSnapOK = res == "ok"
 		w.printf("snapsaved %d %s queue=%s\n", p, res, w.queueNames(p))
 	case "snapsaverace":
